@@ -225,7 +225,8 @@ def _generate_ctls_with_code_map(snapshot, start, end, config, rst_handler, code
                 last_op_id = list(decode(snapshot, b_start, b_end, rst_handler))[-1][3]
                 if last_op_id == END:
                     continue
-                if _find_terminal_instruction(snapshot, ctls, b_end, end, rst_handler) < end:
+                if b_end < end:
+                    _find_terminal_instruction(snapshot, ctls, b_end, end, rst_handler)
                     done = False
                     break
         if done:
